@@ -690,7 +690,13 @@ func (c *Client) Start() (addr net.Addr, err error) {
 	cmd.Stdin = os.Stdin
 
 	if c.config.SecureConfig != nil {
-		if ok, err := c.config.SecureConfig.Check(cmd.Path); err != nil {
+		// A relative command path is evaluated relative to cmd.Dir when the
+		// command is run (see os/exec), so that is the file to verify.
+		checkPath := cmd.Path
+		if cmd.Dir != "" && !filepath.IsAbs(checkPath) {
+			checkPath = cmd.Dir + string(filepath.Separator) + checkPath
+		}
+		if ok, err := c.config.SecureConfig.Check(checkPath); err != nil {
 			return nil, fmt.Errorf("error verifying checksum: %s", err)
 		} else if !ok {
 			return nil, ErrChecksumsDoNotMatch
